@@ -218,6 +218,18 @@ def r_report(prog, tier):
                       ('`%s` enumerates 0..k-1: a degree beyond the number of distinct degrees is never printed, the rows do '
                        'not add up to the total' % it if bad else 'iteration `%s` not recognised' % it),
                       construct='report:' + t, line=n.lineno))
+        # the rows come from the table whose degrees are listed
+        if good and isinstance(n.target, ast.Name):
+            k = n.target.id
+            used = set(unparse(x.value) for b in n.body for x in ast.walk(b) if isinstance(x, ast.Subscript)
+                       and unparse(x.value) in tables and unparse(x.slice) == k)
+            if used:
+                other = sorted(used - {t})
+                obs.append(Ob('R-REPORT', f.fq, 'the rows printed for the degrees of %s are read from that table' % t,
+                              False if other else True,
+                              'the loop lists the degrees recorded in `%s` but prints `%s[%s]`: a degree that occurs only in `%s` is '
+                              'never printed (and one that occurs only in `%s` is a missing key)' % (t, other[0], k, other[0], t)
+                              if other else 'same table', construct='report-same:' + t + ':' + ','.join(sorted(used)), line=n.lineno))
     return obs, {}
 
 
@@ -274,6 +286,37 @@ def r_symtarget(prog, tier):
                              'token `%s`' % (q, tok)
         obs.append(Ob('R-SYMTARGET', f.fq, 'a moved paired-punctuation token lands in the constituent of its partner (`%s`)'
                       % unparse(e.ast)[:50], ok, why, construct='symtarget:' + unparse(e.ast)[:50], line=cfg.nodes[e.node].lineno))
+    # the anchors: with the relc option the selection is the plain selection plus the tokens before a relative pronoun
+    from ..core import split_assumes
+    for e in evs[:1]:
+        loops = cfg.nodes[e.node].loops
+        if not (loops and cfg.nodes[loops[0]].kind == 'iter' and isinstance(cfg.nodes[loops[0]].ast.iter, ast.Name)):
+            continue
+        lst = cfg.nodes[loops[0]].ast.iter.id
+        comps = [(nid, v) for (nid, v) in name_defs(f, lst) if isinstance(v, ast.ListComp) and len(v.generators) == 1]
+        if len(comps) != 2 or any(len(v.generators[0].ifs) != 1 for (_, v) in comps):
+            continue
+        (n1, c1), (n2, c2) = comps
+
+        def disj(c):
+            t = c.generators[0].ifs[0]
+            return [unparse(x) for x in (t.values if isinstance(t, ast.BoolOp) and isinstance(t.op, ast.Or) else [t])]
+        d1, d2 = disj(c1), disj(c2)
+        plain, wide = (d1, d2) if len(d1) <= len(d2) else (d2, d1)
+        if len(plain) != 1 or unparse(c1.generators[0].target) != unparse(c2.generators[0].target):
+            continue
+        ok = True if plain[0] in wide else None
+        why = 'both selections contain `%s`' % plain[0]
+        if ok is None:
+            inv = [w for w in wide if ' in trees.' in w and w.split(' in trees.')[0] == plain[0].split(' in trees.')[0]]
+            if ' in trees.' in plain[0] and inv:
+                ok = False
+                why = 'without the option the anchors are the tokens with `%s`, with the option those with `%s`: the option ' \
+                      'is documented to ADD the tokens before a relative pronoun, not to change the inventory' % (plain[0], inv[0])
+            else:
+                why = 'the two selections of `%s` could not be compared' % lst
+        obs.append(Ob('R-SYMTARGET', f.fq, 'both selections of anchor tokens use the same inventory', ok, why,
+                      construct='symanchor', line=cfg.nodes[n2].lineno))
     return obs, {}
 
 
@@ -397,6 +440,33 @@ def r_leafguard(prog, tier):
                     ok, why = None, 'guard on the number of children not recognised'
                 obs.append(Ob('R-LEAFGUARD', f.fq, 'early `%s` happens only for a node without children' % unparse(r.ast)[:50],
                               ok, why, construct='leaf:' + unparse(r.ast)[:50], line=r.lineno))
+            # the recursion itself is not made to depend on the number of TOKENS below the node: a node above a single token
+            # may still be a unary node (or a chain of them)
+            from ..core import facts_at as _fa
+            for m in rec:
+                for r_ in cfg.exprs(m.id):
+                    for x in ast.walk(r_):
+                        if not (isinstance(x, ast.Call) and prog.callee(x, f) == (f.module.name, f.qual) and x.args):
+                            continue
+                        X = unparse(x.args[0])
+                        forms = ('len(trees.terminals(%s))' % X, 'len(terminals(%s))' % X, 'len(trees.unordered_terminals(%s))' % X)
+                        for (fa, _) in _fa(cfg, m.id):
+                            if fa[0] != 'cmp':
+                                continue
+                            excl = None
+                            if fa[1] in forms and fa[3].isdigit():
+                                c = int(fa[3])
+                                excl = (fa[2] == '!=' and c == 1) or (fa[2] == '>' and c == 1) or (fa[2] == '>=' and c == 2)
+                            elif fa[3] in forms and fa[1].isdigit():
+                                c = int(fa[1])
+                                excl = (fa[2] == '!=' and c == 1) or (fa[2] == '<' and c == 1) or (fa[2] == '<=' and c == 2)
+                            if excl:
+                                n += 1
+                                obs.append(Ob('R-LEAFGUARD', f.fq, 'the walk descends into every node that has children: `%s`'
+                                              % unparse(x)[:50], False,
+                                              'the recursive call is made only when more than one token lies below `%s`: a unary '
+                                              'node (or chain) above a single token is treated like the token itself' % X,
+                                              construct='leaf-tokens:' + unparse(x)[:50], line=m.lineno))
     return obs, {'guarded_early_returns': n}
 
 
